@@ -381,6 +381,7 @@ PROPS = {
         "parts": [
             {"pkg": "internal/system", "files": ["system/zz_verif_policy_test.go"], "run": "TestVerif_C11", "patches": DIAL_PATCHES, "shards": {"quick": 4, "thorough": 8}},
             {"pkg": "internal/system", "files": ["system/zz_verif_policy_test.go"], "run": "TestVerif_C11sysctl", "patches": DIAL_PATCHES + SYSCTL_PATCHES, "shards": {"quick": 4, "thorough": 8}},
+            {"pkg": "internal/system", "files": ["system/zz_verif_two_test.go"], "run": "TestVerif_C11two"},
             e2e_part("TestVerif_C11main"),
         ],
         "level": "fault_enumeration",
@@ -679,3 +680,5 @@ PROPS["C01"]["rule"] += " Advertiser half: in one case in three the interface is
 
 PROPS["C20"]["rule"] += " The error Serve returns must be the one of the failure that came first (any of them if several tasks failed at that instant), not merely one of the errors returned."
 PROPS["C13"]["rule"] += " OS part: interface indices up to 2^31 - 1, address prefix lengths also 0, 1, 63, 65, 127."
+
+PROPS["C11"]["rule"] += " Several-dialers sub-check (1 500 / 200 000 cases): 1..4 interfaces, each with its own Dialer and 1..4 connections ended by link changes, running at the same time on one State: every interface's setting is off while it holds a connection and back at its own previous value when its Dial returns."
